@@ -322,6 +322,10 @@ package gldap
 //@   ensures err == nil ==> !isNilIface(result0)
 //@   ensures[C01,C14] err == nil ==> packet != nil && old(nkids(packet)) >= 1 && old(nkids(packet)) <= 3 && old(typeIs(kid(packet,0).Value, string))
 //@   ensures[C01,C14] err == nil && typeIs(result0, *ControlString) ==> result0.(*ControlString).ControlType == old(strval(kid(packet,0)))
+//@   ensures[C01,C14] err == nil && typeIs(result0, *ControlString) && old(nkids(packet)) == 1 ==> !result0.(*ControlString).Criticality && result0.(*ControlString).ControlValue == ""
+//@   ensures[C01,C14] err == nil && typeIs(result0, *ControlString) && old(nkids(packet)) == 3 ==> result0.(*ControlString).Criticality == old(boolval(kid(packet,1))) && result0.(*ControlString).ControlValue == old(strval(kid(packet,2)))
+//@   ensures[C01,C14] err == nil && typeIs(result0, *ControlString) && old(nkids(packet)) == 2 && old(typeIs(kid(packet,1).Value, bool)) ==> result0.(*ControlString).Criticality == old(boolval(kid(packet,1))) && result0.(*ControlString).ControlValue == ""
+//@   ensures[C01,C14] err == nil && typeIs(result0, *ControlString) && old(nkids(packet)) == 2 && !old(typeIs(kid(packet,1).Value, bool)) ==> !result0.(*ControlString).Criticality && result0.(*ControlString).ControlValue == old(strval(kid(packet,1)))
 //@   ensures[C01,C14] err == nil && typeIs(result0, *ControlManageDsaIT) ==> old(strval(kid(packet,0))) == ControlTypeManageDsaIT
 //@   ensures[C01,C14] err == nil && typeIs(result0, *ControlPaging) ==> old(strval(kid(packet,0))) == ControlTypePaging
 //@   ensures[C01,C14] err == nil && typeIs(result0, *ControlBeheraPasswordPolicy) ==> old(strval(kid(packet,0))) == ControlTypeBeheraPasswordPolicy
